@@ -60,7 +60,9 @@ fn main() {
             std::process::exit(jv::worker::main(&args[2..]));
         }
         "golden-gen" => {
-            match jv::golden::generate(std::path::Path::new(&args[2])) {
+            let grown = args.get(3).map(|a| a == "grown").unwrap_or(false);
+            let r = if grown { jv::golden::generate_grown(std::path::Path::new(&args[2])) } else { jv::golden::generate(std::path::Path::new(&args[2])) };
+            match r {
                 Ok(()) => {}
                 Err(e) => {
                     eprintln!("{}", e);
